@@ -491,6 +491,28 @@ def _install(T):
             return r
         raise Unsupported("prod over symbolic length")
 
+    @reg("numpy.array_equal", doc="array_equal(a, b): same shape and a[k] == b[k] for every k, compared BY VALUE (the dtypes may differ: 1.0 == 1+0j)")
+    def np_array_equal(I, a, b, **kw):
+        if isinstance(a, (list, tuple)):
+            a = as_array(I, a)
+        if isinstance(b, (list, tuple)):
+            b = as_array(I, b)
+        if not (isinstance(a, Arr) and isinstance(b, Arr)):
+            raise Unsupported("array_equal of non 1-D arguments")
+        same_n = V.s_eq(a.n, b.n)
+        if same_n is False:
+            return False
+        if V.is_conc(a.n) and V.is_conc(b.n):
+            r = True
+            for k in range(int(a.n)):
+                r = V.b_and(r, V.s_eq(a.at(k), b.at(k)))
+            return r
+        fa = getattr(I.dom, "forall_index", None)
+        if fa is None:
+            raise Unsupported("array_equal of arrays of symbolic length in this domain")
+        sa, sb = a.snap(), b.snap()
+        return V.b_and(same_n, fa(a.n, lambda k: V.s_eq(sa(k), sb(k))))
+
     @reg("numpy.vdot", doc="vdot(a, b) = sum_k conj(a[k]) * b[k] for 1-D arguments (the FIRST argument is conjugated)")
     def np_vdot(I, a, b):
         if isinstance(a, (list, tuple)):
@@ -822,7 +844,16 @@ def value_attr(T, interp, obj, name):
                 r, c = shape
                 s = obj.snap()
                 I.dom.require_eq(obj.n, r * c, "cannot reshape")
-                return Arr2.build(r, c, lambda i, j: s(i * c + j), obj.dtype)
+                res = Arr2.build(r, c, lambda i, j: s(i * c + j), obj.dtype)
+                # numpy returns a VIEW: an in-place operator on the result would change `obj` too.  The values here are
+                # functional, so such a write is not modelled -- it is detected and reported (aliasing guard)
+                import weakref
+                res._view_of = weakref.ref(obj)
+                if not getattr(obj, "is_list", False):
+                    if obj._views is None:
+                        obj._views = []
+                    obj._views.append(weakref.ref(res))
+                return res
             return reshape
         if name == "sum":
             return lambda axis=None: T.sum1(I, obj)
